@@ -54,6 +54,9 @@ void harness(void) {
 	if (res == KSI_OK && g_b32.may_reject) REACH("digit outside 2-7 ignored");
 	if (res == KSI_OK && g_b32.ended) REACH("stopped at padding");
 	if (res == KSI_INVALID_FORMAT) REACH("invalid format");
+#ifdef OOM
+	if (res == KSI_OUT_OF_MEMORY) REACH("allocation failed");
+#endif
 }
 #endif
 
@@ -62,6 +65,12 @@ void harness(void) {
 	const unsigned char *d; char *out = NULL; int res;
 	size_t n = nondet_size(), g = nondet_size();
 	g_b32e_k = nondet_size(); g_b32e_j = nondet_size(); g_b32e_exp = (char)nondet_uchar();
+#ifdef N_MAX
+	__CPROVER_assume(n <= N_MAX);
+#endif
+#ifdef G_VALUE
+	__CPROVER_assume(g == G_VALUE);   /* harness domain: one concrete group length per job (symbolic g: 64-bit division by a symbolic divisor, no answer in 15 min) */
+#endif
 #if defined(DOM_G0)
 	__CPROVER_assume(g == 0);
 #elif defined(DOM_PADGROUP)
@@ -71,7 +80,12 @@ void harness(void) {
 #endif
 	res = KSI_base32Encode(d, n, g, &out);
 	if (res == KSI_OK) REACH("encoded");
+#if !defined(DOM_G0) && !defined(DOM_PADGROUP)
 	if (res == KSI_OK && n == 45 && g == 6) REACH("publication string shape (SHA-256)");
+#endif
 	if (res == KSI_OK && n % 5 != 0) REACH("with padding");
+#ifdef OOM
+	if (res == KSI_OUT_OF_MEMORY) REACH("allocation failed");
+#endif
 }
 #endif
